@@ -3,7 +3,9 @@
 package common
 
 import (
+	"bytes"
 	"encoding/json"
+	"flag"
 	"fmt"
 	"math/rand"
 	"os"
@@ -124,4 +126,74 @@ func ReadJSON(path string, v any) error {
 		return err
 	}
 	return json.Unmarshal(b, v)
+}
+
+// Translator regenerates Coq sources under coq/Generated from /repo's Go source.
+type Translator func(outDir string) error
+
+var translators = map[string]Translator{}
+
+func RegisterTranslator(name string, t Translator) { translators[name] = t }
+
+// WriteIfChanged keeps timestamps stable so that make does not rebuild needlessly.
+func WriteIfChanged(path string, data []byte) error {
+	old, err := os.ReadFile(path)
+	if err == nil && bytes.Equal(old, data) {
+		return nil
+	}
+	return os.WriteFile(path, data, 0o644)
+}
+
+func runTranslators(outDir string) int {
+	var names []string
+	for n := range translators {
+		names = append(names, n)
+	}
+	sort.Strings(names)
+	rc := 0
+	for _, n := range names {
+		if err := translators[n](outDir); err != nil {
+			fmt.Fprintf(os.Stderr, "translator %s: %v\n", n, err)
+			rc = 4
+		}
+	}
+	return rc
+}
+
+// Main is the entry point shared by the aggregated binary and the per-property
+// development binaries (harness/cmd/vh-*/main.go).
+func Main() {
+	prop := flag.String("prop", "", "property id (C01..C20)")
+	seed := flag.Int64("seed", 1, "PRNG seed")
+	tier := flag.String("tier", "quick", "quick|thorough")
+	out := flag.String("out", "", "output directory")
+	replay := flag.String("replay", "", "replay file")
+	flag.Parse()
+	if *prop == "TRANSLATE" && *out != "" {
+		os.Exit(runTranslators(*out))
+	}
+	if *prop == "" || *out == "" {
+		fmt.Fprintln(os.Stderr, "usage: vharness -prop Cxx -out DIR [-seed N] [-tier quick|thorough] [-replay F]")
+		os.Exit(2)
+	}
+	d, err := Lookup(*prop)
+	if err != nil {
+		fmt.Fprintln(os.Stderr, err)
+		os.Exit(2)
+	}
+	if err := os.MkdirAll(*out, 0o755); err != nil {
+		fmt.Fprintln(os.Stderr, err)
+		os.Exit(2)
+	}
+	cfg := &Config{Property: *prop, Seed: *seed, Tier: *tier, OutDir: *out, Replay: *replay,
+		Rng: rand.New(rand.NewSource(*seed))}
+	rep, err := d(cfg)
+	if err != nil {
+		fmt.Fprintln(os.Stderr, "harness error:", err)
+		os.Exit(3)
+	}
+	if err := rep.Write(*out); err != nil {
+		fmt.Fprintln(os.Stderr, err)
+		os.Exit(3)
+	}
 }
